@@ -37,6 +37,9 @@ CHECKS = {
  "C09": ("model_checking", "explorer A (handle-history BFS with reference-count invariants) + explorer B (preemption-bounded schedule DFS of threads owning distinct handles to one payload, guard-page allocator)",
          "sequential: every handle history (copy/assign/swap/null/destroy) over RefCount::Ptr and Xml::Variant to a fix-point / depth bound and the String/Variant histories with count == sharers; concurrent: every schedule with <= 2 (3) preemptions at volatile/atomic operations and every schedule with <= 1 preemption with all plain accesses as scheduling points, for 9 three-thread scenarios",
          "sequential consistency (no weak-memory effects); bounded numbers of handles and threads", "DESIGN.md §4 C09"),
+ "C10": ("model_checking", "stateless delay/preemption-bounded DFS over thread schedules of the real Future + worker pool under a serialising scheduler; Future.cpp is included into the scenario unit to install small pools and to shut the pool down",
+         "eight scenarios (single client, lazy creation race, one-slot queue back-pressure, three futures before any join, abort, restart, clock jumps driving the shrink branch, client+main on a one-slot queue): every schedule with <= 2 deviations from the default scheduler (1 for the 650-point lazy-creation scenario in the quick tier); exactly-once, join-after-completion, result, state, deadlock/livelock, call-record lifetime (guard allocator) and operations on destroyed primitives are decided on each",
+         "sequential consistency; processor count 1 (pool of at most 3 workers); delay-bounded (a non-default successor at a blocking point costs budget too)", "DESIGN.md §4 C10"),
  "C11": ("model_checking", "stateless preemption- and deviation-bounded DFS over thread schedules of the real primitives under a serialising scheduler (TSan-ABI callbacks + renamed pthread/sem/clock calls as scheduling points)",
          "every schedule with <= 2 (3) preemptions and <= 1 (2) environment deviations (spurious wake-up, early timeout) of 2-4 thread scenarios per primitive, plus the deadline arithmetic of every timed wait for 18 start/timeout combinations; deadlock/livelock verdicts from the scheduler",
          "the scheduler's model of POSIX primitives is trusted; sequential consistency; plain accesses are not scheduling points", "DESIGN.md §3.3, §4 C11"),
